@@ -9,7 +9,7 @@ RULE = ("traces = one per (topology, start node, callback mode) for every topolo
         "Trace_ChainRec; non-trivial = subtree of the start node has at least 3 nodes; distinct by (topology, start, mode)")
 
 
-def record(P, start, mode, api):
+def record(P, start, mode, api, pre=None, ed=None, copy_after=False):
     from swcgeom.core import Tree
     from swcgeom.core.swc_utils import traverse
     events, counter = [], [0]
@@ -33,8 +33,22 @@ def record(P, start, mode, api):
     if mode in ("leave", "both"):
         kw["leave"] = leave
     n = len(P)
-    ids, pids = np.arange(n, dtype=np.int32), np.array(P, dtype=np.int32)
-    if api == 0:
+    ids, pids = np.arange(n, dtype=np.int32), np.array(P if pre is None else pre, dtype=np.int32)
+    if pre is not None:
+        # history: traverse the pre-state in every mode through both tree entry points, edit the parent of one node in place, traverse again
+        t = Tree(n, id=ids, pid=pids)
+        quiet = [dict(enter=lambda n, p: 0), dict(leave=lambda n, cs: 0), dict(enter=lambda n, p: 0, leave=lambda n, cs: 0)]
+        for q in quiet:
+            t.traverse(**q); t.node(0).traverse(**q); t.traverse(root=start, **q)
+            traverse((t.id(), t.pid()), **q)
+        if copy_after:
+            t = t.copy()
+        t.node(ed[0]).pid = ed[1]
+        if api == 0:
+            ret = traverse((t.id(), t.pid()), root=start, **kw)
+        else:
+            ret = t.traverse(root=start, **kw) if api == 1 else t.node(start).traverse(**kw)
+    elif api == 0:
         ret = traverse((ids, pids), root=start, **kw)
     else:
         t = Tree(n, id=ids, pid=pids)
@@ -47,14 +61,14 @@ def execute(c):
     api = c.get("api", c["cid"] % 3)
     events = []
     try:
-        events = record(c["P"], c["start"], c["mode"], api)
+        events = record(c["P"], c["start"], c["mode"], api, c.get("pre"), c.get("ed"), c["cid"] % 2 == 1)
     except RecursionError:
         return {"events": [], "err": "RecursionError"}
     return {"events": events}
 
 
 def keyfn(c, o, why):
-    return "traverse-%s:%s" % (c["mode"], why)
+    return "traverse-%s%s:%s" % (c["mode"], "-after-edit" if c and "pre" in c else "", why)
 
 
 def nontrivial(c):
